@@ -32,6 +32,18 @@ type Pool struct {
 
 // BootWorker spawns and boots one worker on a fresh scratch dir.
 func (p *Pool) BootWorker() (*Worker, error) {
+	var w *Worker
+	var err error
+	for attempt := 0; attempt < 4; attempt++ { // a boot can lose a port race; retry on a fresh directory
+		w, err = p.bootOnce()
+		if err == nil {
+			return w, nil
+		}
+	}
+	return nil, err
+}
+
+func (p *Pool) bootOnce() (*Worker, error) {
 	w, err := Spawn(SpawnOpts{Env: p.Env, Exe: p.Exe})
 	if err != nil {
 		return nil, err
